@@ -7,7 +7,7 @@ def cchar(b):
     return "char(%d)" % (b if b < 128 else b - 256)
 
 
-def tu_source(g, gid=None, dflt=(), limits=None, ctx=(), postprec=(), defines=(), noval=(), nvterms=()):
+def tu_source(g, gid=None, dflt=(), limits=None, ctx=(), postprec=(), defines=(), noval=(), nvterms=(), tkinds=None):
     """g: gram.Grammar.  Terms are typed char terms with the observing functor, every rule gets RuleF{index}."""
     gid = gid or g.name
     o = ['#define %s' % d for d in defines] + ['#include "rt.hpp"', 'using namespace ctpg;', 'using vh::Node;', 'namespace G {',
@@ -18,6 +18,25 @@ def tu_source(g, gid=None, dflt=(), limits=None, ctx=(), postprec=(), defines=()
         # declarations as a user writes them: default arguments are used whenever precedence / associativity are default
         pr, asc = g.tprec.get(t, 0), g.tassoc.get(t, 0)
         ct = 'char_term(%s)' % cchar(ord(t)) if (pr, asc) == (0, 0) else ('char_term(%s, %d)' % (cchar(ord(t)), pr) if asc == 0 else 'char_term(%s, %d, associativity(%d))' % (cchar(ord(t)), pr, asc))
+        kind = (tkinds or {}).get(i, 'char')
+        if kind != 'char' and i not in nvterms:
+            # the same one-character term declared as another KIND of term, through that kind's constructor overloads
+            # (precedence and associativity travel through different code for each)
+            tail = '' if (pr, asc) == (0, 0) else (', %d' % pr if asc == 0 else ', %d, associativity(%d)' % (pr, asc))
+            if kind == 'string':
+                o.append('constexpr char d%d[] = {%s, 0};' % (i, cchar(ord(t))))
+                o.append('auto t%d = typed_term(string_term(d%d%s), vh::TermF{%d});' % (i, i, tail, i))
+            else:
+                o.append('constexpr char d%d[] = "\\\\x%02x";' % (i, ord(t)))
+                if kind == 'regexn':          # regex_term(name, precedence, associativity)
+                    o.append('auto t%d = typed_term(regex_term<d%d>(%s%s), vh::TermF{%d});' % (i, i, json.dumps(tname_of(t)), tail, i))
+                elif (pr, asc) == (0, 0):     # regex_term(associativity) with its default
+                    o.append('auto t%d = typed_term(regex_term<d%d>(associativity::no_assoc), vh::TermF{%d});' % (i, i, i))
+                elif pr == 0:                 # regex_term(associativity)
+                    o.append('auto t%d = typed_term(regex_term<d%d>(associativity(%d)), vh::TermF{%d});' % (i, i, asc, i))
+                else:                         # regex_term(precedence, associativity)
+                    o.append('auto t%d = typed_term(regex_term<d%d>(%d, associativity(%d)), vh::TermF{%d});' % (i, i, pr, asc, i))
+            continue
         o.append('TN t%d(%s, vh::TermFN{%d});' % (i, ct, i) if i in nvterms else 'TT t%d(%s, vh::TermF{%d});' % (i, ct, i))
     ntid = {n: i for i, n in enumerate(g.nts)}
     tid = {t: i for i, t in enumerate(g.ts)}
@@ -44,14 +63,18 @@ def tu_source(g, gid=None, dflt=(), limits=None, ctx=(), postprec=(), defines=()
     return '\n'.join(o) + '\n'
 
 
-def tla_json(g, gid=None, dflt=(), ctx=(), noval=(), nvterms=()):
+def tname_of(t):
+    return t if 32 < ord(t) < 127 else '\\x%02X' % ord(t)
+
+
+def tla_json(g, gid=None, dflt=(), ctx=(), noval=(), nvterms=(), tkinds=None):
     """Same JSON shape as gram.HostGrammar.tla_json, for an exact (generated TU) grammar."""
     gid = gid or g.name
     ntid = {n: i for i, n in enumerate(g.nts)}
     tid = {t: i for i, t in enumerate(g.ts)}
     nnt, nt = len(g.nts), len(g.ts)
     names_nt = ['N%d' % i for i in range(nnt)] + ['##']
-    tn = [(t if 32 < ord(t) < 127 else '\\x%02X' % ord(t)) for t in g.ts] + ['<eof>', '<error_recovery_token>']
+    tn = [('r_\\x%02x' % ord(t) if (tkinds or {}).get(i) == 'regex' and i not in nvterms else tname_of(t)) for i, t in enumerate(g.ts)] + ['<eof>', '<error_recovery_token>']      # (an unnamed regex term is named after its pattern)
 
     def code(x):
         return ntid[x] if x in ntid else (TB + nt + 1 if x == 'error' else TB + tid[x])
